@@ -152,6 +152,7 @@ func runC06(c *mc.Ctx) {
 		b := k.Bytes()
 		scalars = append(scalars, append(make([]byte, 32-len(b)), b...))
 	}
+	scalars = append(scalars, bytes.Repeat([]byte{0xff}, 32), append(bytes.Repeat([]byte{0x77}, 31), 0x01))
 	for z := 1; z <= 31; z++ {
 		b := make([]byte, 32)
 		for i := z; i < 32; i++ {
@@ -208,6 +209,11 @@ func runC06(c *mc.Ctx) {
 			}
 		}
 	}
+	for L := 38; L <= 45; L++ { // byte 33 is the compression marker 0x01 but the payload is longer than 38 bytes
+		b := mk(L, 0x80)
+		b[33] = 1
+		raws = append(raws, c06Raw{Hex: mc.Hex(b), FixSum: true, Why: fmt.Sprintf("length %d with 0x01 at the marker position", L)})
+	}
 	for _, comp := range []bool{false, true} {
 		base := append([]byte{0x80}, scalars[8]...)
 		if comp {
@@ -229,6 +235,13 @@ func runC06(c *mc.Ctx) {
 			if bit < len(base)*8 {
 				raws = append(raws, c06Raw{Hex: mc.Hex(b), FixSum: true, Why: "bit flip, checksum recomputed"})
 			}
+		}
+		for _, m := range checksumPatterns() { // checksum corruptions of weight <= 2 bits, byte values, cancelling pairs
+			b := append([]byte{}, full...)
+			for i := 0; i < 4; i++ {
+				b[len(b)-4+i] ^= m[i]
+			}
+			raws = append(raws, c06Raw{Hex: mc.Hex(b), Why: "checksum corrupted (pattern)"})
 		}
 		for v := 0; v < 256; v++ { // every network byte
 			b := append([]byte{}, full...)
